@@ -206,6 +206,7 @@ type VC struct {
 	assumptions map[string]bool
 	noVariant   map[string]bool
 	recInst     map[string]string
+	axInst      map[string]bool
 	clock0      string
 	curProps    []string
 	quiet       bool // drop obligations (pure evaluation)
